@@ -6,6 +6,7 @@
 //                                         the driver runs the exact checkers; expect = "ok"
 //   c20 invariants <seed> <n> <outbase>   clone / reverse / normalize: dumps, area, length, counts, dimension,
 //                                         equalsExact / equalsIdentical; the driver checks them; expect = "ok"
+//   c20 compare    <seed> <n> <outbase>   pairs of geometries; expect = signs of a.compareTo(b), b.compareTo(a), a.compareTo(a)
 //   c20 replay <stream> <file>            run the case lines in <file> (only the input part is used), print "case\nexpect"
 #include "gtree.h"
 #include <geos_c.h>
@@ -405,6 +406,52 @@ static void streamInvariants(Ctx& cx, Rng& r, long n, Out& out) {
     }
 }
 
+
+// ---------------------------------------------------------------- compare stream (Geometry::compareTo)
+static void tweak(TNode& nd, Rng& r, Out& out) {
+    // change one thing somewhere: an ordinate, a point count, an element count
+    if (!nd.kids.empty() && r.chance(60)) { tweak(nd.kids[r.below(nd.kids.size())], r, out); return; }
+    if (!nd.kids.empty() && r.chance(50)) { nd.kids.pop_back(); out.count("tweak_drop_element"); return; }
+    if (nd.seqs.empty()) return;
+    TSeq& s = nd.seqs[r.below(nd.seqs.size())];
+    if (s.pts.empty()) return;
+    if (nd.tag == "L" && s.pts.size() > 2 && r.chance(30)) { s.pts.pop_back(); out.count("tweak_drop_point"); return; }
+    size_t i = r.below(s.pts.size());
+    if ((nd.tag == "Y" || nd.tag == "R") && (i == 0 || i + 1 == s.pts.size())) { i = s.pts.size() > 2 ? 1 : 0; }
+    double v = tokVal(s.pts[i][r.below(2)]);
+    s.pts[i][r.below(2)] = hex(v + (r.chance(50) ? 1.0 : -1.0));
+    if (nd.tag == "Y" || nd.tag == "R") s.pts.back() = s.pts.front();
+    out.count("tweak_ordinate");
+}
+static std::string compareCase(Ctx& cx, const std::string& a, const std::string& b, bool& ok) {
+    std::unique_ptr<Geometry> ga, gb;
+    try { ga = buildGeom(a, cx.gf.get()); gb = buildGeom(b, cx.gf.get()); } catch (std::exception&) { ok = false; return ""; }
+    auto sg = [](int v) { return v < 0 ? "-1" : v > 0 ? "1" : "0"; };
+    ok = true;
+    return std::string(sg(ga->compareTo(gb.get()))) + " " + sg(gb->compareTo(ga.get())) + " " + sg(ga->compareTo(ga.get()));
+}
+static void streamCompare(Ctx& cx, Rng& r, long n, Out& out) {
+    for (long i = 0; i < n; i++) {
+        GenCfg cfg; cfg.weird = false; cfg.mixedDims = false; cfg.maxDepth = 2; cfg.maxPts = 5; cfg.gridInts = r.chance(85); cfg.curves = false;
+        GTreeGen gen(r, cfg, &out);
+        std::string a = gen.geom(), b;
+        int mode = (int) r.below(4);
+        if (mode == 0) { b = gen.geom(); out.count("pair_independent"); }
+        else {
+            auto v = splitToks(a); Toks tk(v); int srid = std::stoi(tk.next()); TNode root;
+            try { root = parseNode(tk); } catch (std::exception&) { continue; }
+            if (mode == 1) { out.count("pair_identical"); }
+            else if (mode == 2) { tweak(root, r, out); out.count("pair_tweaked"); }
+            else { variant(root, r, out); out.count("pair_variant"); }
+            b = lineOf(srid, root);
+        }
+        bool ok = false; std::string e = compareCase(cx, a, b, ok);
+        if (!ok) { out.count("rejected_by_constructor"); continue; }
+        out.count(std::string("result_") + e.substr(0, e.find(' ')));
+        out.emit("P " + a + " | " + b, e);
+    }
+}
+
 // ---------------------------------------------------------------- main
 int main(int argc, char** argv) {
     if (argc < 4) { std::fprintf(stderr, "usage: c20 <stream> <seed> <n> <outbase> | c20 replay <stream> <file>\n"); return 2; }
@@ -417,6 +464,9 @@ int main(int argc, char** argv) {
             if (line.empty()) continue;
             if (st == "normalize") {
                 bool ok = false; std::string e = normalizeGroup(cx, splitBar(line, 1), ok);
+                std::cout << (ok ? e : std::string("rejected")) << "\n";
+            } else if (st == "compare") {
+                auto gs = splitBar(line, 1); bool ok = false; std::string e = gs.size() == 2 ? compareCase(cx, gs[0], gs[1], ok) : "";
                 std::cout << (ok ? e : std::string("rejected")) << "\n";
             } else if (st == "construct") {
                 // only the "K kind | G geom" part of the line is used; everything else is recomputed
@@ -439,6 +489,7 @@ int main(int argc, char** argv) {
         Out out(argv[4]); Rng r(seed);
         if (stream == "normalize") streamNormalize(cx, r, n, out);
         else if (stream == "construct") streamConstruct(cx, r, n, out);
+        else if (stream == "compare") streamCompare(cx, r, n, out);
         else if (stream == "invariants") streamInvariants(cx, r, n, out);
         else { std::fprintf(stderr, "unknown stream %s\n", stream.c_str()); return 2; }
     }
